@@ -7,6 +7,7 @@ from ..gen import maps as M
 from ..translate import labelfns as tr
 from ..translate import arith2
 from . import c09_keyopts
+from ..translate import hashmapsrc as hmsrc
 
 SPEC = dict(
     manifest=dict(
@@ -20,17 +21,21 @@ SPEC = dict(
              '(c09_capacity_explicit). The label-kind function used by the model is regenerated from utils.py on every run, and so is the '
              'key-range test of set_int_key (`int_key < 0 or int_key.bit_length() > self.size`, Generated/DictKey.lean): it is proved, for EVERY '
              'integer key and width, to reject exactly the keys outside 0 <= k < 2^n (c09_src_key_range) and to be the test the hand model uses '
-             '(c09_src_model_set).',
+             '(c09_src_model_set).'
+             ' SOURCE TIE (parser half of the round trip): parse.py is regenerated as Lean functions on every run (Generated/HashmapSrc.lean) and Lean proves for all inputs that the '
+             'regenerated parse_hashmap / parse / deserialize_hashmap_node / deserialize_hml / deserialize_unary equal the hand model (c09_src_parse_is_model), so the round trip holds through the parser as written '
+             '(c09_src_roundtrip). The serialiser half (utils.py build_tree .. serialize_dict) is regenerated and validated against the library and compared with the model by Lean evaluation on samples; its equality is not proved.',
         level_note='Trusted: Lean kernel (propext, Classical.choice, Quot.sound); Model/Hashmap.lean as a hand transcription of '
                    'hashmap/{hashmap,utils,parse}.py (tied by sampled differential correspondence: exhaustive widths 1-3 incl. all insertion '
                    'orders in the thorough tier, all 65535 width-4 key sets thorough / sampled quick, pattern key sets up to width 1023, all key '
                    'forms, invalid keys); value serialisers are modelled as functions returning appended bits/refs; dict re-keying in fork_map is '
                    'modelled without re-deduplication (exact for distinct equal-length keys, which set_int_key guarantees; HashMap(map_=...) '
                    'injection is outside the model); Cell construction limits (depth) are C01.',
-        technique='Lean 4 proof (hand model + label functions translated from source) + differential correspondence with the library + round-trip oracle',
+        technique='Lean 4 proof (hand model for set/serialise; label functions, key-range test, and the whole parser - label reader, parse recursion - regenerated from source and proved equal to the model) + differential correspondence with the library + round-trip oracle',
     ),
     translators=[('hashmap/utils.py->Generated/LabelFns.lean', tr.regenerate),
-                 ('hashmap.py set_int_key range test->Generated/DictKey.lean', arith2.regenerator('DictKey'))],
+                 ('hashmap.py set_int_key range test->Generated/DictKey.lean', arith2.regenerator('DictKey')),
+                 ('hashmap/parse.py+utils.py->Generated/HashmapSrc.lean', hmsrc.regenerate)],
     design_ref='DESIGN.md §6 C09',
     rule='a case = (key width, value serialiser, insertion sequence of (key form, value)); widths 1-2 all key sets x all orders, width 3 all key '
          'sets x 4 orders (all orders thorough), width 4 sampled key sets (all 65535 thorough), widths 5..1023 prefix-sharing patterns; key forms '
@@ -363,6 +368,11 @@ def src_search(ctx):
         if 1 <= pt['size'] <= 1023:
             run_case(ctx, pt['size'], 'u3', [(f'i:{pt["key"]}', '1')], (), 'src-key')
             run_case(ctx, pt['size'], 'u3', [('i:0', '2'), (f'i:{pt["key"]}', '1')], (), 'src-key2')
+    # regenerated parser / serialiser (Generated/HashmapSrc.lean) vs hand model: the differing dictionaries are round-tripped first
+    hm = hmsrc.diff_points(ctx)
+    for n, items in hm['ser'][:20]:
+        if 1 <= n <= 1023:
+            run_case(ctx, n, 'u3', [(f'i:{k}', str((i * 3 + 1) % 8)) for i, (k, _) in enumerate(items)], (), 'src-ser')
     return len(ctx.failures) > n0
 
 
